@@ -15,7 +15,10 @@ import ast
 from lib import c_Z, c_bool, c_list, c_opt, c_str
 
 # ----------------------------------------------------------------------------- values
-STRS = ["", "a", "ab", "abc", "b", "ba", "é", 'q"t', "to be", "l\nm", "x and y"]
+# (several strings ARE verb phrases of the description language, in the forms the transformer rewrites them into: an expected
+#  value must never be touched by the conjugation / negation of the sentence around it)
+STRS = ["", "a", "ab", "abc", "b", "ba", "é", 'q"t', "to be", "l\nm", "x and y", "to not be", "is", "is not", "to have", "has",
+        "to match", "can"]
 INTS = [0, 1, 2, 3, -1, 10, 100, 2 ** 70]
 ATOMS = [None, True, False] + INTS + STRS
 KEYS = ["a", "b", "ab", "", 0, 1, 2, True, None]
